@@ -31,8 +31,8 @@ theorem vertcat_eq_fns (sbs isPath : Bool) (T : Nat) (val : Val) (m i : Nat) (gs
   | nil => rfl
   | cons gj rest ih =>
     cases hc : gj.1.critical
-    · simp [List.filter_cons, hc, ih]
-    · simp [List.filter_cons, hc, ih, objVec]
+    · simp [hc, ih]
+    · simp [hc, ih, objVec]
 
 theorem objectiveFns_map_fst (gs : List Goal) :
     (objectiveFns gs).map Prod.fst = gs.filter fun g => !g.critical := by
